@@ -915,7 +915,7 @@ def from_shorthand(shorthand_string, slash=None):
                 # Add polychords
                 r = slash
                 for n in res:
-                    if n != r[-1]:
+                    if len(r) == 0 or n != r[-1]:
                         r.append(n)
                 return r
         return res
